@@ -111,7 +111,7 @@ def evaluate(name, checks, cases, shard=300):
 # ------------------------------------------------------------------------------------------------ A: force
 FORCE_CHECKS = {
     "L1": "fun c => let '(gs, cols, outs) := c in all_conform gs outs",
-    "L2": "fun c => let '(gs, cols, outs) := c in in_force_envelope KeepGiven gs cols outs",
+    "L2": "fun c => let '(gs, cols, outs) := c in in_force_envelope AlwaysCandidate gs cols outs",
 }
 
 
